@@ -50,6 +50,13 @@ def mutators(t):
 
 def run(c):
     drv = c.build("segdb")
+    if c.replay and '"src":"conc"' in open(c.replay).readline():
+        n = sum(1 for _ in open(c.replay))
+        r = c.validate("SegDBConcTrace", "SegDBConcTrace.cfg", c.replay, deterministic=False)
+        if r.done != n:
+            c.report("concurrent:history-not-linearizable", "replayed history has no linearization", c.replay)
+        c.cov["traces_validated_against_impl"] += 1
+        return
     if c.replay:
         r = c.validate("SegDBTrace", "SegDBTrace.cfg", c.replay)
         c.judge_trace(r, c.replay)
@@ -83,7 +90,20 @@ def run(c):
         except Exception as e:
             errs.append(e)
 
-    ths = [threading.Thread(target=gen, args=(k,)) for k in ("p", "b")] + [threading.Thread(target=rel)]
+    conc = {}
+
+    def concurrent():
+        # 2-3 goroutines on one file-based database; TLC searches a linearization of every history
+        try:
+            tr = os.path.join(c.scratch, "conc.ndjson")
+            c.run_driver(drv, ["-conc", 300 if c.thorough else 45, "-out", tr], timeout=3000)
+            r = c.validate("SegDBConcTrace", "SegDBConcTrace.cfg", tr, deterministic=False, timeout=3000)
+            conc["r"], conc["trace"] = r, tr
+        except Exception as e:
+            errs.append(e)
+
+    ths = [threading.Thread(target=gen, args=(k,)) for k in ("p", "b")] + [threading.Thread(target=rel),
+                                                                           threading.Thread(target=concurrent)]
     for t in ths:
         t.start()
     for t in ths:
@@ -131,6 +151,31 @@ def run(c):
         t.join()
     if errs:
         raise errs[0]
+    # concurrent histories: the first one TLC could not linearize (if any)
+    r, tr = conc["r"], conc["trace"]
+    lines = open(tr).read().splitlines()
+    starts = [i + 1 for i, l in enumerate(lines) if '"ev":"reset"' in l]
+    if r.done != len(lines):
+        lin = [int(x) for x in re.findall(r'<<"VERIF-HIST", (\d+)>>', r.out)]
+        nxt = [x for x in starts if x > (max(lin) if lin else 0)]
+        if not nxt or (r.other_error and "VERIF" not in r.other_error and not lin and "deadlock" not in r.out.lower()
+                       and not r.completed):
+            raise vlib.Infra("concurrent trace validation did not run: %s" % r.out[-1500:])
+        a = nxt[0]
+        b = ([x for x in starts if x > a] + [len(lines) + 1])[0]
+        rp = os.path.join(c.scratch, "conc-replay.ndjson")
+        with open(rp, "w") as f:
+            f.write("\n".join(lines[a - 1:b - 1]) + "\n")
+        kind = json.loads(lines[a - 1]).get("kind", "?")
+        c.report("concurrent[%s]:history-not-linearizable" % kind,
+                 "no linearization of the concurrent history starting at line %d explains the logged results" % a, rp)
+    nconc = len(starts)
+    ncalls = len(lines) - nconc
+    nerr = sum(1 for l in lines if '"err":1' in l)
+    c.notes.append("concurrent histories linearized by TLC: %d (%d calls, %d of them returned an error and are "
+                   "treated as without effect)" % (nconc, ncalls, nerr))
+    c.cov["traces_validated_against_impl"] += nconc
+    c.cov["evaluations"] += ncalls
     for kind in ("p", "b"):
         nhist += results["n" + kind]
         for (p, r) in traces[kind]:
